@@ -16,6 +16,7 @@ import (
 	"fmt"
 	"io"
 	"net"
+	"os"
 	"strings"
 	"sync"
 	"time"
@@ -28,6 +29,11 @@ import (
 func init() {
 	drv.Register("c09cli", func(c *drv.Ctx) { verifAppCLI(c, "socks") })
 	drv.Register("c10cli", func(c *drv.Ctx) { verifAppCLI(c, "http") })
+	drv.Register("c02proxy", func(c *drv.Ctx) {
+		c.R.Rule = "confinement of the HTTP-based application scans: elastic and docker x http/https probe the non-loopback address 198.51.100.7 while HTTP_PROXY / HTTPS_PROXY / ALL_PROXY point at a bystander server on loopback; no connection may reach the bystander and nothing may be reported. non-trivial = case"
+		appProxyCases(c)
+		c.Sample(map[string]any{"cases": "elastic|docker x http|https with proxy variables set"})
+	})
 }
 
 type appCapLogger struct {
@@ -275,4 +281,96 @@ func verifAppCLI(c *drv.Ctx, family string) {
 		}(k)
 	}
 	wg.Wait()
+}
+
+// appProxyCases: confinement of the HTTP-based scans. With HTTP_PROXY / HTTPS_PROXY set in the
+// environment (as on many workstations) a probe of a non-loopback target must still go to the TARGET:
+// a transport that honours the proxy variables would connect to the proxy host - an address outside
+// the target set - and report the proxy's answer as the target's. The proxy variables are read once
+// per process by net/http, so this runs first in its own part process.
+func appProxyCases(c *drv.Ctx) {
+	var mu sync.Mutex
+	hits := 0
+	by, stop := appServer(func(conn net.Conn) {
+		mu.Lock()
+		hits++
+		mu.Unlock()
+		appHTTPAfter(0, `{"cluster_name":"bystander","ID":"bystander"}`)(conn)
+	})
+	defer stop()
+	for _, v := range []string{"HTTP_PROXY", "http_proxy", "HTTPS_PROXY", "https_proxy", "ALL_PROXY", "all_proxy"} {
+		os.Setenv(v, "http://"+by.String())
+	}
+	os.Unsetenv("NO_PROXY")
+	os.Unsetenv("no_proxy")
+	for _, which := range []string{"elastic", "docker"} {
+		for _, proto := range []string{"http", "https"} {
+			args := []string{"--proto", proto, "-t", "400ms", "--exit-delay", "20ms", "-p", "9200", "-w", "1", "198.51.100.7"}
+			lg := &appCapLogger{}
+			ctx, cancel := context.WithCancel(context.Background())
+			var engine scan.EngineResulter
+			var r *scan.Range
+			var err error
+			switch which {
+			case "elastic":
+				cm := newElasticCmd()
+				cm.cmd.SetOut(io.Discard)
+				cm.cmd.SetErr(io.Discard)
+				if err = cm.cmd.ParseFlags(args); err == nil {
+					if err = cm.opts.parseRawOptions(); err == nil {
+						if r, err = cm.opts.parseScanRange(cm.cmd.Flags().Args()); err == nil {
+							engine = cm.opts.newElasticScanEngine(ctx)
+						}
+					}
+				}
+			case "docker":
+				cm := newDockerCmd()
+				cm.cmd.SetOut(io.Discard)
+				cm.cmd.SetErr(io.Discard)
+				if err = cm.cmd.ParseFlags(args); err == nil {
+					if err = cm.opts.parseRawOptions(); err == nil {
+						if r, err = cm.opts.parseScanRange(cm.cmd.Flags().Args()); err == nil {
+							engine = cm.opts.newDockerScanEngine(ctx)
+						}
+					}
+				}
+			}
+			c.Eval(1)
+			c.Nontrivial(1)
+			name := fmt.Sprintf("%s --proto %s 198.51.100.7:9200 with HTTP(S)_PROXY=%s", which, proto, by)
+			if err != nil || engine == nil {
+				c.Fail("appcli:proxy:refused:"+which+":"+proto, name+": command line refused: "+fmt.Sprint(err), nil)
+				cancel()
+				continue
+			}
+			done := make(chan struct{})
+			go func() {
+				startScanEngine(ctx, engine, newEngineConfig(withLogger(lg), withScanRange(r), withExitDelay(20*time.Millisecond)))
+				close(done)
+			}()
+			select {
+			case <-done:
+			case <-time.After(15 * time.Second):
+				c.Fail("appcli:proxy:hang:"+which+":"+proto, name+": still running after 15 s", nil)
+			}
+			cancel()
+			mu.Lock()
+			n := hits
+			mu.Unlock()
+			lg.mu.Lock()
+			recs := append([]string{}, lg.results...)
+			lg.mu.Unlock()
+			if n > 0 || len(recs) > 0 {
+				c.Fail("appcli:proxy:"+which+":"+proto, fmt.Sprintf("%s: the probe of 198.51.100.7 opened %d connection(s) to the proxy host %s, an address outside the target set, and reported %v", name, n, by, recs), map[string]any{"part": c.Part, "args": args})
+				mu.Lock()
+				hits = 0
+				mu.Unlock()
+				continue
+			}
+			c.Outcome(which + ":proxy-ignored")
+		}
+	}
+	for _, v := range []string{"HTTP_PROXY", "http_proxy", "HTTPS_PROXY", "https_proxy", "ALL_PROXY", "all_proxy"} {
+		os.Unsetenv(v)
+	}
 }
